@@ -296,7 +296,25 @@ fn core_word_max(xs: &mut State) -> Xresult {
 }
 
 fn core_word_rem(xs: &mut State) -> Xresult {
-    arithmetic_ops_real(xs, Xint::wrapping_rem, std::ops::Rem::<f64>::rem)
+    let b = xs.pop_data()?;
+    let a = xs.pop_data()?;
+    match b.value() {
+        Cell::Int(b) => {
+            let a = a.to_xint()?;
+            if *b == 0 {
+                Err(Xerr::DivisionByZero)
+            } else {
+                let c = Cell::from(a.wrapping_rem(*b));
+                xs.push_data(c)
+            }
+        }
+        Cell::Real(b) => {
+            let a = a.to_real()?;
+            let c = Cell::from(a % *b);
+            xs.push_data(c)
+        }
+        _ => Err(num_type_error(b)),
+    }
 }
 
 fn core_word_bitand(xs: &mut State) -> Xresult {
